@@ -54,6 +54,10 @@ def gen_cases(tier, seed, ctx):
         huge = kind in ('resealed-sum-boundary', 'resealed-comp_len', 'resealed-len', 'bad-zstd-dict')
         for op, args in (scripts if (tier == 'thorough' or huge) else rnd.sample(scripts, 3)):
             cases.append(E.Case('x%d' % len(cases), '%s %s' % (op, args.format(p=p, z=zt)), dict(kind=kind, variant='asan')))
+    # the advanced API with the header length announced late (after zck_read_lead): buffer sizes must not depend on WHEN an option came
+    for i, (kind, p, zt, b) in enumerate(files):
+        for v in (['hl'] + (['0', '-1', str(len(b))] if i % 5 == 0 else [])):
+            cases.append(E.Case('x%d' % len(cases), 'OPENLATE %s %s' % (p, v), dict(kind=kind, variant='asan')))
     return cases
 
 def post(recs, ctx):
@@ -105,7 +109,7 @@ def nontrivial(r):
     return not r['meta'].get('kind', '').endswith('valid')
 
 def run(tier, seed, replay=None):
-    rule = ("library ops META / READSEQ / SCAN / CHUNKSEQ on the real sources built with -fsanitize=address,undefined, each in a forked "
+    rule = ("library ops META / READSEQ / SCAN / CHUNKSEQ / OPENLATE (header length announced between zck_read_lead and zck_read_header) on the real sources built with -fsanitize=address,undefined, each in a forked "
             "child with a timeout, on ~60 valid files and their RE-SEALED field mutants (every length/count field at boundary values, "
             "optional-element sizes incl. wrapping ones, count mismatches, sizes pointing at/over the end), raw and re-sealed byte edits, "
             "bit flips and truncations, dictionary chunks that carry the zstd dictionary magic without being one; plus the ASan-built tools zck_read_header, unzck (-c, --dict), zck_delta_size on the same files. "
